@@ -20,6 +20,8 @@ enum Rhs {
     Script,
     /// y' = -2000 (y - cos t): drives the explicit methods into their stiffness detection
     Stiff,
+    /// smooth problem whose j-th evaluation (1-based) returns NaN (0 = never): drives Newton failures
+    NanAt(usize),
 }
 
 struct F {
@@ -50,6 +52,7 @@ impl IVP for F {
             Rhs::Impulse(j) => d[0] = if n == j { 1.0 } else { 0.0 },
             Rhs::Smooth => d[0] = x.cos() + 0.5 * y[0],
             Rhs::Stiff => d[0] = -2000.0 * (y[0] - x.cos()),
+            Rhs::NanAt(j) => d[0] = if n == j { f64::NAN } else { x.cos() + 0.5 * y[0] },
             Rhs::Script => {
                 // call-indexed: the value depends only on the position inside the current trial
                 if n <= self.pre { d[0] = std::env::var("SCRIPT_PRE").ok().and_then(|v| v.parse().ok()).unwrap_or(1.0); return; }
@@ -211,6 +214,27 @@ fn main() {
             let budget: usize = 200000;
             let _ = budget;
             let r = solve(&run, &f, &mut so);
+            let calls = f.calls.borrow();
+            let ts: Vec<f64> = calls.iter().map(|c| c.0).collect();
+            let ys: Vec<f64> = calls.iter().map(|c| c.1).collect();
+            let cb: Vec<String> = so.cbs.iter().map(|c| format!("[{},{},{}]", js(c.0), js(c.1), js(c.2))).collect();
+            let bd: Vec<String> = so.bounds.iter().map(|c| format!("[{},{}]", js(c.0), js(c.1))).collect();
+            match r {
+                Ok(res) => println!("{{\"ok\":true,\"status\":\"{:?}\",\"nfev\":{},\"njev\":{},\"nstep\":{},\"naccpt\":{},\"nrejct\":{},\"h\":{},\"ode_calls\":{},\"jac_calls\":{},\"t\":{},\"y\":{},\"callbacks\":[{}],\"bounds\":[{}],\"calls_at_cb\":{:?},\"had_interp\":{:?}}}",
+                    res.status, res.evals.ode, res.evals.jac, res.steps.total, res.steps.accepted, res.steps.rejected, js(res.h), calls.len(), f.jac_calls.get(), jl(&ts), jl(&ys), cb.join(","), bd.join(","), so.calls_at_cb, so.had_interp),
+                Err(e) => println!("{{\"ok\":false,\"error\":\"{:?}\"}}", e),
+            }
+        }
+        // probe bdf x0 xend h0|none max_step|none max_steps FLAGS newton_maxiter rtol nan_at
+        //   the REAL BDF on y' = cos t + y/2 (analytic Jacobian 1/2), scripted callback flags
+        "bdf" => {
+            let p = |s: &String| -> Option<f64> { if s == "none" { None } else { Some(s.parse().unwrap()) } };
+            let (x0, xend): (f64, f64) = (a[2].parse().unwrap(), a[3].parse().unwrap());
+            let f = F::new(Rhs::NanAt(a[10].parse().unwrap()));
+            let mut so = Rec { cbs: vec![], dense: vec![], bounds: vec![], thetas: vec![0.0, 1.0], stop_after: 0, flags: a[7].as_bytes().to_vec(), modified_to: 0.25, xout_at: 0.0, calls_at_cb: vec![], had_interp: vec![] };
+            let rtol: f64 = a[9].parse().unwrap();
+            let r = BDF::builder().maybe_first_step(p(&a[4])).maybe_max_step(p(&a[5])).max_steps(a[6].parse().unwrap()).newton_maxiter(a[8].parse().unwrap()).build()
+                .solve(&f, x0, &[0.5], xend, rtol.into(), (rtol * 1e-3).into(), Some(&mut so));
             let calls = f.calls.borrow();
             let ts: Vec<f64> = calls.iter().map(|c| c.0).collect();
             let ys: Vec<f64> = calls.iter().map(|c| c.1).collect();
